@@ -64,9 +64,13 @@ func vwCheckDecode(kind, form string, in []byte, acc *vwAcc) {
 		acc.viol("C18/guess/"+vwDecoderName(kind, "pb"), "out-of-range field replaced by a guess instead of being refused: "+d.guess, mk())
 	}
 	if sid, ok := d.val.(SampleID); ok {
-		if verr := sid.Validate(); verr != nil {
-			acc.viol("C18/accepts-invalid/"+name, fmt.Sprintf("decoder accepts %s although the decoded value fails SampleID.Validate: %v", vwShortText(in, form), verr), mk())
-		}
+		vwCheckAcceptedSampleID(sid, name, in, form, mk, acc)
+	}
+	if sc, ok := d.val.(SampleCoords); ok {
+		vwCheckAcceptedCoords(sc, name, in, mk, acc)
+	}
+	if smp, ok := d.val.(Sample); ok && form == "json" && smp.Proof != nil && d.note == "" {
+		vwCheckAcceptedSampleJSON(smp, name, in, mk, acc)
 	}
 	if form == "stream" && kind != "nd" && kind != "range" && d.rest == 0 && int(d.n) != len(in) {
 		acc.viol("C18/stream-count/"+kind, fmt.Sprintf("ReadFrom reports %d bytes of %d consumed", d.n, len(in)), mk())
@@ -568,4 +572,119 @@ func vwFrame(body []byte) []byte {
 	hdr[n] = byte(x)
 	n++
 	return append(append([]byte(nil), hdr[:n]...), body...)
+}
+
+// vwCheckAcceptedSampleID judges a SampleID that a decoder without a square size (the JSON one) accepted.
+// The range test is the harness's own (it does not rely on SampleID.Validate alone): a height of 0 or a
+// negative index addresses no position of any square. Whatever was accepted has to survive the identifier's
+// other forms: binary and JSON re-encodings decode to an equal value or are refused - never altered.
+func vwCheckAcceptedSampleID(sid SampleID, name string, in []byte, form string, mk func() vwCase, acc *vwAcc) {
+	if verr := sid.Validate(); verr != nil {
+		acc.viol("C18/accepts-invalid/"+name, fmt.Sprintf("decoder accepts %s although the decoded value fails SampleID.Validate: %v", vwShortText(in, form), verr), mk())
+	}
+	f := vwFields{H: sid.height, A: sid.RowIndex, B: sid.ShareIndex}
+	if f.H == 0 || f.A < 0 || f.B < 0 {
+		acc.viol("C18/accepts-invalid/"+name,
+			fmt.Sprintf("decoder accepts %s: height=%d row=%d col=%d addresses no position of any square (height 0 or negative index)", vwShortText(in, form), f.H, f.A, f.B), mk())
+	}
+	k := vwKind("SampleID")
+	// binary form of the accepted value
+	var enc []byte
+	var err error
+	if p := vwGuard(func() { enc, err = sid.MarshalBinary() }); p != "" {
+		acc.o("decode/" + name + "/accepted-value-encoder-panic")
+		return
+	}
+	acc.trans++
+	if err == nil {
+		var back SampleID
+		if p := vwGuard(func() { back, err = SampleIDFromBinary(enc) }); p != "" {
+			acc.viol("C18/panic/SampleIDFromBinary", "decoder panics on the encoder's own output: "+p, mk())
+			return
+		}
+		acc.trans++
+		if err != nil {
+			acc.viol("C18/lossy/SampleID/binary-of-json-accepted",
+				fmt.Sprintf("SampleID{height=%d row=%d col=%d} accepted from %s encodes to %x which the binary decoder refuses (%v): a field was altered by the encoder", f.H, f.A, f.B, vwShortText(in, form), enc, err), mk())
+		} else if d := k.fields(back).eq(f); d != "" {
+			acc.viol("C18/lossy/SampleID/binary-of-json-accepted",
+				fmt.Sprintf("SampleID{height=%d row=%d col=%d} accepted from %s encodes to %x which decodes to %+v (field %s differs: truncated)", f.H, f.A, f.B, vwShortText(in, form), enc, k.fields(back), d), mk())
+		} else {
+			acc.o("decode/" + name + "/accepted-value-binary-roundtrip-ok")
+		}
+	} else {
+		acc.o("decode/" + name + "/accepted-value-encode-refused")
+	}
+	// JSON form of the accepted value
+	var js []byte
+	var out SampleID
+	if p := vwGuard(func() {
+		js, err = json.Marshal(sid)
+		if err == nil {
+			err = json.Unmarshal(js, &out)
+		}
+	}); p != "" {
+		acc.viol("C18/panic/SampleID.json", "panic in JSON round trip of an accepted value: "+p, mk())
+		return
+	}
+	acc.trans += 2
+	if err != nil {
+		acc.viol("C18/lossy/SampleID.json", fmt.Sprintf("value accepted from %s re-encodes to %s which the decoder refuses: %v", vwShortText(in, form), js, err), mk())
+	} else if d := k.fields(out).eq(f); d != "" {
+		acc.viol("C18/lossy/SampleID.json", fmt.Sprintf("value accepted from %s re-encodes to %s which decodes to %+v (field %s differs)", vwShortText(in, form), js, k.fields(out), d), mk())
+	}
+}
+
+// vwCheckAcceptedCoords: SampleCoords is the JSON parameter of the share module's GetSamples; it has no
+// validation of its own, so: exact JSON round trip, and acceptance by SampleCoordsAs1DIndex for a size
+// implies a position inside that square.
+func vwCheckAcceptedCoords(sc SampleCoords, name string, in []byte, mk func() vwCase, acc *vwAcc) {
+	js, err := json.Marshal(sc)
+	var out SampleCoords
+	if err == nil {
+		err = json.Unmarshal(js, &out)
+	}
+	acc.trans += 2
+	if err != nil || out != sc {
+		acc.viol("C18/lossy/SampleCoords.json", fmt.Sprintf("%+v accepted from %s re-encodes to %s -> %+v (%v)", sc, vwShortText(in, "json"), js, out, err), mk())
+	}
+	for _, s := range vwVerifySizes {
+		var idx int
+		var ierr error
+		if p := vwGuard(func() { idx, ierr = SampleCoordsAs1DIndex(sc, s) }); p != "" {
+			acc.o("decode/" + name + "/as1d-panic")
+			continue
+		}
+		acc.trans++
+		if ierr == nil && !(0 <= sc.Row && sc.Row < s && 0 <= sc.Col && sc.Col < s && idx == sc.Row*s+sc.Col) {
+			acc.viol("C18/accepts-outside-square/SampleCoords", fmt.Sprintf("SampleCoordsAs1DIndex(%+v, %d) = %d without error", sc, s, idx), mk())
+		}
+	}
+}
+
+// vwCheckAcceptedSampleJSON: a Sample accepted from JSON (share and proof present) re-encodes to JSON and to
+// protobuf forms that decode to an equal value, or the encoders refuse - no field is silently altered.
+func vwCheckAcceptedSampleJSON(smp Sample, name string, in []byte, mk func() vwCase, acc *vwAcc) {
+	for _, form := range []string{"json", "pb"} {
+		var enc []byte
+		var err error
+		if p := vwGuard(func() { enc, _, err = vwEncode("sample", form, smp) }); p != "" || err != nil {
+			acc.o("decode/" + name + "/accepted-value-reencode-" + form + "-refused")
+			continue
+		}
+		var d vwDecoded
+		if p := vwGuard(func() { d, err = vwDecode("sample", form, enc) }); p != "" {
+			acc.viol("C18/panic/"+vwDecoderName("sample", form), "decoder panics on the re-encoding of an accepted value: "+p, mk())
+			continue
+		}
+		acc.trans += 2
+		if err != nil {
+			acc.o("decode/" + name + "/accepted-value-reencoded-" + form + "-rejected")
+			continue
+		}
+		if diff := vwContDiff("sample", smp, d.val, false); diff != "" {
+			acc.viol("C18/lossy/Sample/"+form+"-of-json-accepted",
+				fmt.Sprintf("Sample accepted from %s re-encodes (%s) to a value that decodes differently: %s", vwShortText(in, "json"), form, diff), mk())
+		}
+	}
 }
